@@ -29,7 +29,7 @@
           start -QStart-> ret | wait | r_log      getInstanceIO; MarkParticipated / MarkProposed; (Propose: value into
                                                    ValueCh, HashCh); MaybeStart -- these touch only the IO the call got, so
                                                    one atomic step is observationally equivalent
-          r_log -RunLog-> r_look                  runInstance: "instance starting" log line
+          r_log -RunLog-> r_look                  runInstance is entered (log.WithTopic: the first use of the context)
           r_look -RLook-> r_add                   inst := c.getInstanceIO(duty)  -- Relookup = TRUE: a SECOND lookup (as
                                                    coded: a fresh IO if the first one was deleted meanwhile)
           r_add -DlAdd(st)-> r_buf | r_err        deadliner.Add: expired/exempt duty is skipped (nil)
@@ -277,7 +277,7 @@ QStart(c) ==
                                  ELSE /\ UpdQ(c, [qc[c] EXCEPT !.pc = "r_log", !.io = k])
                                       /\ ios' = [T EXCEPT ![k].prop = TRUE, ![k].hash = qc[c].v, ![k].running = TRUE]
   /\ UNCHANGED <<dl, delq, qsubs, qdlv, eff, gate>>
-\* runInstance: log.Debug("QBFT consensus instance starting")
+\* runInstance is entered: ctx := log.WithTopic(parent, "qbft")
 RunLog(c) == /\ qc[c].pc = "r_log" /\ UpdQ(c, [qc[c] EXCEPT !.pc = "r_look"])
              /\ UNCHANGED <<imap, ios, dl, delq, qsubs, qdlv, eff, gate>>
 \* inst := c.getInstanceIO(duty)
@@ -309,7 +309,7 @@ Forward(c) == /\ qc[c].pc = "r_run" /\ qc[c].ctx = "live" /\ ios[qc[c].bio].buf 
 \* qbft.Run receives the proposed value from inst.HashCh
 TakeValue(c) == /\ qc[c].pc = "r_run" /\ qc[c].hasval = 0 /\ ios[qc[c].rio].hash # 0
                 /\ UpdQ(c, [qc[c] EXCEPT !.hasval = ios[qc[c].rio].hash])
-                /\ ios' = [ios EXCEPT ![qc[c].rio].hash = IF Defect = "valueTwice" THEN @ ELSE 0]
+                /\ ios' = [ios EXCEPT ![qc[c].rio].hash = 0]
                 /\ UNCHANGED <<imap, dl, delq, qsubs, qdlv, eff, gate>>
 \* the context ends before a decision: "consensus timeout"
 RunCancel(c) == /\ qc[c].pc = "r_run" /\ qc[c].ctx = "cancelled"
